@@ -226,6 +226,15 @@ def r2_r3_r4(ctx, retsets):
             bound = "index" if b == ("phi", L["phi"].id) else ("count" if b in [x[1] for x in fams] and b == dict((repr(f), bd) for f, bd in fams).get(repr(family(u))) else "other")
             got.add((repr(family(u)), bound, I["init"]))
         want = {(repr(f), "count", "#0") for f, bd in fams[:-1]} | {(repr(fam), "index", "#0")}
+        # every undo works on the table the updates of this response went to (same SSA value as the update calls' table)
+        tabs = {}
+        for (L2, up2) in apply_loops[:k + 1]:
+            tabs[up2.callee.replace("rtr_update_", "")] = vf.expr(fn, up2.args[1])
+        wrong_tab = [u for u in undos if vf.expr(fn, u.args[1]) != tabs.get(u.callee.replace("rtr_undo_update_", ""))]
+        ctx.check(not wrong_tab, "C03.R3", "undo-same-table:arm%d" % (k + 1), (wrong_tab[0].loc() if wrong_tab else up.loc()),
+                  "undo calls roll back the table that was updated" if not wrong_tab else
+                  "undo on %s although the updates went to %s" % (vf.show(vf.expr(fn, wrong_tab[0].args[1])), vf.show(tabs.get(wrong_tab[0].callee.replace("rtr_undo_update_", "")))),
+                  key="C03.R3:undo-table:arm%d" % (k + 1))
         ctx.check(got == want, "C03.R3", "undo-coverage:arm%d(%s)" % (k + 1, up.callee), up.loc(),
                   "undo loops cover %s; expected all earlier families completely and this family up to the failing index" %
                   sorted((g[1], g[2]) for g in got), key="C03.R3:undo-coverage:arm%d" % (k + 1))
@@ -316,6 +325,11 @@ def check(ctx):
     r2_r3_r4(ctx, retsets)
     r5(ctx)
     r6(ctx, retsets)
+    # what the next query will carry changes only at the commit point (rule shared with C05)
+    from specs import C05
+    with ctx.shared({"C05.R6": ("C03.R7", "next-query state (session id, serial number, request flag) is written only at the commit point of a "
+                                "complete response or when the socket's data is given up: a failed response leaves it as it was")}):
+        C05.r6(ctx, retsets)
     ctx.not_decided("that the table contents equal previous + announcements - withdrawals (C02's set semantics composed with R1-R5)")
     ctx.not_decided("cancellation of the worker thread in the middle of the receive loop (covered by rtr_stop's purge, C07.R4)")
 
